@@ -44,6 +44,12 @@ def call_method(eng, bm, args, kwargs, node):
                 foreign = b
                 break
         key = f"{modname}:{qual}"
+        if cur is None and foreign is not None:
+            # super().name(...) into a base class outside the repository: an ASSUMED contract may be registered for it
+            skey = f"{modname}:{bm.sup}.super.{name}"
+            if skey in eng.registry:
+                eng.trusted_used.add(skey)
+                return eng.apply_contract(eng.registry[skey], FuncRef(modname, f"{bm.sup}.super.{name}"), [obj] + list(args), kwargs, node, self_path=bm.path)
         if (cur is None or (qual not in mod.functions and key not in eng.registry)) and foreign is not None \
                 and "nodes" in obj.fields and "adj" in obj.fields:
             # the method is inherited from a class outside the repository (networkx.Graph / vermouth Molecule): graph model
@@ -55,6 +61,10 @@ def call_method(eng, bm, args, kwargs, node):
             return eng.call_repo(fr, [obj] + list(args), kwargs, node, self_path=bm.path) if key not in eng.registry or eng.registry[key].inline \
                 else eng.apply_contract(eng.registry[key], fr, [obj] + list(args), kwargs, node, self_path=bm.path)
         raise Unsupported(f"method {name} of {obj.cls} not found")
+    if isinstance(obj, Rec) and f"{obj.cls}:{name}" in eng.registry:
+        # a method of a library class under an ASSUMED contract
+        eng.trusted_used.add(f"{obj.cls}.{name}")
+        return eng.apply_contract(eng.registry[f"{obj.cls}:{name}"], FuncRef(obj.cls, name), [obj] + list(args), kwargs, node, self_path=bm.path)
     if isinstance(obj, Rec):
         return rec_method(eng, bm, obj, name, args, kwargs, node)
     if isinstance(obj, CList):
